@@ -151,12 +151,66 @@ type vf29Query struct {
 	weights map[string]float64 // lower-cased pattern -> boost weight
 }
 
+// Boost values arrive over gRPC as proto doubles (query.BoostFromProto copies them unchecked) and nested
+// boosts multiply (visitMatches: weight*s.boost, starting from 1): every float64, including NaN and +-Inf, can
+// be the weight of a match.  vf29Boost wraps child into one or two Boost nodes and returns the product as the
+// scorer computes it.
+func vf29Boost(r *vfRand, child query.Q) (query.Q, float64, string) {
+	ordinary := []float64{2, 0.5, 1.5, 1 + 1e-10, 3, 1}
+	special := []float64{math.Inf(1), math.NaN(), math.Inf(-1), 0, -2, 1e300, math.MaxFloat64, 1e100, 1e101, 1e12, 5e-324}
+	nested := [][2]float64{{1e200, 1e200}, {0, math.Inf(1)}, {math.Inf(1), 0}, {2, 3}, {1e-200, 1e300}, {-1, math.Inf(-1)}, {math.Inf(1), 0.5}, {1e60, 1e60}}
+	switch k := r.Intn(100); {
+	case k < 55:
+		w := ordinary[r.Intn(len(ordinary))]
+		return &query.Boost{Child: child, Boost: w}, w, fmt.Sprint(w)
+	case k < 85:
+		w := special[r.Intn(len(special))]
+		return &query.Boost{Child: child, Boost: w}, w, fmt.Sprint(w)
+	default:
+		p := nested[r.Intn(len(nested))]
+		return &query.Boost{Boost: p[0], Child: &query.Boost{Boost: p[1], Child: child}}, (1 * p[0]) * p[1], fmt.Sprintf("%v x %v", p[0], p[1])
+	}
+}
+
+// class of a weight (product of the boosts above a match)
+func vf29WeightClass(w float64) string {
+	switch {
+	case math.IsNaN(w):
+		return "nan"
+	case math.IsInf(w, 1):
+		return "+inf"
+	case math.IsInf(w, -1):
+		return "-inf"
+	case w <= 0:
+		return "nonpositive"
+	case w > 1e99:
+		return "huge"
+	case w > 1e6:
+		return "large"
+	}
+	return "ordinary"
+}
+
+// the strongest weight class of a query (for oracle keys and the class histogram)
+func (q *vf29Query) boostClass() string {
+	rank := map[string]int{"none": 0, "ordinary": 1, "large": 2, "nonpositive": 3, "huge": 4, "-inf": 5, "nan": 6, "+inf": 7}
+	best := "none"
+	for _, w := range q.weights {
+		if c := vf29WeightClass(w); w != 1 && rank[c] > rank[best] {
+			best = c
+		}
+	}
+	return best
+}
+
 func vf29GenQuery(r *vfRand) vf29Query {
-	boosts := []float64{2, 0.5, 1.5, 1 + 1e-10, 3, 1}
 	sub := func(p string) query.Q { return &query.Substring{Pattern: p} }
 	w := map[string]float64{"needle": 1, "stack": 1, "hay": 1}
-	bw := boosts[r.Intn(len(boosts))]
-	switch r.Intn(9) {
+	shape := r.Intn(12)
+	if shape >= 9 { // half of the queries carry a boost
+		shape = []int{3, 4, 8}[shape-9]
+	}
+	switch shape {
 	case 0:
 		return vf29Query{"needle", sub("needle"), w}
 	case 1:
@@ -164,11 +218,13 @@ func vf29GenQuery(r *vfRand) vf29Query {
 	case 2:
 		return vf29Query{"needle or stack", query.NewOr(sub("needle"), sub("stack")), w}
 	case 3:
+		b, bw, nm := vf29Boost(r, sub("needle"))
 		w["needle"] = bw
-		return vf29Query{fmt.Sprintf("boost(%v needle) or stack", bw), query.NewOr(&query.Boost{Child: sub("needle"), Boost: bw}, sub("stack")), w}
+		return vf29Query{fmt.Sprintf("boost(%s needle) or stack", nm), query.NewOr(b, sub("stack")), w}
 	case 4:
+		b, bw, nm := vf29Boost(r, sub("stack"))
 		w["stack"] = bw
-		return vf29Query{fmt.Sprintf("needle or boost(%v stack) or hay", bw), query.NewOr(sub("needle"), &query.Boost{Child: sub("stack"), Boost: bw}, sub("hay")), w}
+		return vf29Query{fmt.Sprintf("needle or boost(%s stack) or hay", nm), query.NewOr(sub("needle"), b, sub("hay")), w}
 	case 5:
 		return vf29Query{"file:needle", &query.Substring{Pattern: "needle", FileName: true}, w}
 	case 6:
@@ -176,8 +232,9 @@ func vf29GenQuery(r *vfRand) vf29Query {
 	case 7:
 		return vf29Query{"needle and hay", query.NewAnd(sub("needle"), sub("hay")), w}
 	default:
+		b, bw, nm := vf29Boost(r, query.NewOr(sub("needle"), sub("hay")))
 		w["needle"], w["hay"] = bw, bw
-		return vf29Query{fmt.Sprintf("boost(%v, needle or hay) or stack", bw), query.NewOr(&query.Boost{Child: query.NewOr(sub("needle"), sub("hay")), Boost: bw}, sub("stack")), w}
+		return vf29Query{fmt.Sprintf("boost(%s, needle or hay) or stack", nm), query.NewOr(b, sub("stack")), w}
 	}
 }
 
@@ -209,6 +266,25 @@ func vf29Rat(f float64) string {
 		return fmt.Sprintf("((%s)%%Z, %s%%positive)", n.String(), d.String())
 	}
 	return fmt.Sprintf("(%s%%Z, %s%%positive)", n.String(), d.String())
+}
+
+// a weight as the model's xweight: the binary64 value exactly, or its non-finite class
+func vf29XW(f float64) string {
+	switch {
+	case math.IsNaN(f):
+		return "XNaN"
+	case math.IsInf(f, 1):
+		return "XPosInf"
+	case math.IsInf(f, -1):
+		return "XNegInf"
+	}
+	var r big.Rat
+	r.SetFloat64(f)
+	n, d := r.Num(), r.Denom()
+	if n.Sign() < 0 {
+		return fmt.Sprintf("(XFin (Qmake (%s)%%Z %s%%positive))", n.String(), d.String())
+	}
+	return fmt.Sprintf("(XFin (Qmake %s%%Z %s%%positive))", n.String(), d.String())
 }
 
 func vf29Cand(doc *vf29Doc, fileName bool, off, sz int, weight float64) (string, string) {
@@ -244,7 +320,7 @@ func vf29Cand(doc *vf29Doc, fileName bool, off, sz int, weight float64) (string,
 			desc += fmt.Sprintf(" sym(%q kind=%q start=%v end=%v kindscore=%v)", doc.Content[s.Start:s.End], s.Kind, s.Start == off, s.End == end, ks)
 		}
 	}
-	return cTuple(cBool(sb), cBool(eb), kind, vf29Rat(weight)), desc
+	return cTuple(cBool(sb), cBool(eb), kind, vf29XW(weight)), desc
 }
 
 type vf29MatchObs struct {
@@ -397,7 +473,12 @@ func TestVerifC29(t *testing.T) {
 			off1 := vf29Search(t, searchers, q.q, &base)
 			on := vf29Search(t, searchers, q.q, &dbg)
 			replay := map[string]any{"shards": shards, "query": q.name, "chunk_matches": chunk, "bm25": bm25}
+			bc := q.boostClass()
+			replay["boost_class"] = bc
 			fail := func(key, what string) {
+				if bc != "none" && bc != "ordinary" {
+					key += ":boost=" + bc
+				}
 				vfOracleFail(key, what, replay)
 			}
 			// ---- oracle 1: repeatability (bitwise) and debug neutrality
@@ -430,7 +511,7 @@ func TestVerifC29(t *testing.T) {
 					if math.IsNaN(m.Score) || math.IsInf(m.Score, 0) {
 						fail("finite:match-score", fmt.Sprintf("line score %v", m.Score))
 					}
-					if m.Score > prev {
+					if !(prev >= m.Score) { // NaN-robust: a NaN score is out of order
 						fail("order:matches-not-non-increasing", "line matches of "+f.FileName+" not ordered by non-increasing score")
 					}
 					prev = m.Score
@@ -440,7 +521,7 @@ func TestVerifC29(t *testing.T) {
 					if math.IsNaN(m.Score) || math.IsInf(m.Score, 0) {
 						fail("finite:match-score", fmt.Sprintf("chunk score %v", m.Score))
 					}
-					if m.Score > prev {
+					if !(prev >= m.Score) { // NaN-robust: a NaN score is out of order
 						fail("order:matches-not-non-increasing", "chunk matches of "+f.FileName+" not ordered by non-increasing score")
 					}
 					prev = m.Score
@@ -448,7 +529,12 @@ func TestVerifC29(t *testing.T) {
 			}
 			promoted := false
 			sortedFrom := func(fs []zoekt.FileMatch) bool {
-				return sort.SliceIsSorted(fs, func(a, b int) bool { return fs[a].Score > fs[b].Score })
+				for a := 1; a < len(fs); a++ {
+					if !(fs[a-1].Score >= fs[a].Score) { // NaN-robust
+						return false
+					}
+				}
+				return true
 			}
 			if !sortedFrom(off1) {
 				// the only allowed shape: element 2 promoted; without it the list is sorted; it is novel
@@ -458,13 +544,15 @@ func TestVerifC29(t *testing.T) {
 					rest = append(append([]zoekt.FileMatch{}, off1[:2]...), off1[3:]...)
 				}
 				novel := len(off1) > 3 && path.Ext(off1[2].FileName) != path.Ext(off1[0].FileName) && path.Ext(off1[2].FileName) != path.Ext(off1[1].FileName)
-				if len(off1) <= 3 || !sortedFrom(rest) || !novel || off1[2].Score < off1[3].Score*0.9 {
+				if len(off1) <= 3 || !sortedFrom(rest) || !novel || !(off1[2].Score >= off1[3].Score*0.9) {
 					fail("order:files-not-sorted-beyond-documented-promotion", "files are not in non-increasing score order up to one novel-extension promotion into third place: "+sig)
 				}
 				promoted = true
 			}
+			stats["boost="+bc]++
 			if bm25 {
 				stats["bm25"]++
+				stats["bm25:boost="+bc]++
 				continue
 			}
 			// ---- correspondence case (default scorer)
@@ -547,7 +635,7 @@ func TestVerifC29(t *testing.T) {
 				tfs = append(tfs, cTuple(vf29Rat(L), cZ(int64(f)), vf29Rat(tfScore(vf29EnvFloat("VERIF_BM25_K", 1.2), vf29EnvFloat("VERIF_BM25_B", 0.75), L, f))))
 			}
 			coq := cTuple(cTuple(cList(ins), obsOff, obsOn), cList(tfs))
-			class := []string{fmt.Sprintf("chunk=%v", chunk), fmt.Sprintf("files=%d", min(len(on), 6)), fmt.Sprintf("promoted=%v", promoted), "q=" + strings.SplitN(q.name, "(", 2)[0]}
+			class := []string{fmt.Sprintf("chunk=%v", chunk), fmt.Sprintf("files=%d", min(len(on), 6)), fmt.Sprintf("promoted=%v", promoted), "q=" + strings.SplitN(q.name, "(", 2)[0], "boost=" + bc}
 			vfCase(coq, fmt.Sprintf("%x", sha1.Sum([]byte(coq))), len(on) >= 2 && multi, class,
 				map[string]any{"query": q.name, "chunk": chunk, "files": descs})
 		}
